@@ -249,6 +249,7 @@ def run(chk: Check, only_numeric: bool = False) -> None:
             r2.ok(key2, where, f"C returns {sorted(rets)[:4]}")
     chk.extra["macro_bound"] = n_macro
     if not only_numeric:
+        run_inplace(chk, ix, funcs, sites)
         pass_order(chk, ix)
 
 
@@ -284,3 +285,46 @@ def call_label(kw) -> str:
     if isinstance(nm, ast.Constant):
         return str(nm.value)
     return ""
+
+
+MUTABLE_FIRST = {"list_rprimitive", "dict_rprimitive", "set_rprimitive", "object_rprimitive", "bytearray_rprimitive"}
+
+
+def run_inplace(chk: Check, ix, funcs: dict, sites) -> None:
+    """R05.4: augmented assignment on a mutable operand mutates it."""
+    r4 = chk.rule("R05.4", "a primitive registered for an augmented-assignment operator (`+=`, `*=`, ...) whose left operand is a mutable object is bound to a CPython in-place API (PySequence_InPlace*/PyNumber_InPlace*) or to a lib-rt function whose every non-NULL result is the result of such an API (transitively) or the operand itself: the compiled `xs *= n` must grow the object other references see, not build a new one", floor=12)
+
+    def inplace(cname: str, seen=()) -> bool:
+        if "InPlace" in cname and cname.startswith(("Py", "_Py")):
+            return True
+        d = funcs.get(cname)
+        if d is None or not d.get("has_body") or cname in seen:
+            return False
+        rets = [r for r in d["returns"] if r != "NULL"]
+        if not rets:
+            return False
+        for r in rets:
+            if r.startswith("call:"):
+                if not inplace(r[5:], seen + (cname,)):
+                    return False
+            elif r.startswith("ref:"):
+                continue  # a parameter / local holding the operand (identity preserved)
+            else:
+                return False
+        return True
+
+    for m, n, kw, cname in sites:
+        nm = kw.get("name")
+        if not (isinstance(nm, ast.Constant) and isinstance(nm.value, str) and nm.value.endswith("=") and nm.value not in ("==", "!=", "<=", ">=")):
+            continue
+        at = kw.get("arg_types")
+        first = norm(at.elts[0]) if isinstance(at, ast.List) and at.elts else None
+        if first not in MUTABLE_FIRST:
+            continue
+        key = f"{m.name}: `{nm.value}` on {first} -> {cname} works in place"
+        where = f"{m.relpath}:{n.lineno}"
+        if inplace(cname):
+            r4.ok(key, where)
+        else:
+            d = funcs.get(cname, {})
+            r4.violation(key, where, f"{cname} returns {d.get('returns')}: no in-place CPython API on the way, so the compiled `{nm.value}` creates a new object and only rebinds the target; an alias, an attribute or the caller still sees the old contents (interpreted code mutates the object)")
